@@ -48,11 +48,13 @@ class C20(Spec):
             "'%urlx', ' %url'), plain arguments and empty strings; links with spaces, quotes, $(), backticks, leading dashes, "
             "newlines, text that itself is a placeholder, non-ASCII, 300 characters; six media types. The real ui.openExternally "
             "runs the configured program (a recorder found through PATH) and the recorded argv/stdin must equal Hook.hook_command; also "
-            "SEQUENCES of 2..4 opens with different links and media types in one session under one installed configuration. "
+            "SEQUENCES of 2..4 opens with different links and media types in one session under one installed configuration. REAL ITEMS: posts, "
+            "actors and activities built by pub's constructors, whose media / attachment / icon / banner URLs carry credentials, ports, queries, "
+            "fragments, spaces and $(), opened with o / p / b / number+Enter: the link the hook received equals the Pub model's link. "
             "non-trivial = the hook has a placeholder argument or an embedded look-alike.")
     assumptions = ["the recorder reports argv[0] by base name (exec resolves it through PATH)",
                    "links and arguments contain no NUL byte (exec rejects those)",
-                   "the path from a key press to openExternally (o, p, b, number+Enter) is covered by the UI check (C07)"]
+                   "in the real-item batch the expected link is the document's URL as Go's url.URL.String() prints it (generator ground truth for forms String() leaves unchanged)"]
 
     def batches(self, rng, tier):
         return []
@@ -98,8 +100,37 @@ class C20(Spec):
         b = Batch("c20", cases, env=env, timeout=900, correspondence="ui.openExternally + exec == Hook.hook_command")
         b.parallel = False
         runner.run_batches(self, scratch, binary, [b], report)
+        # the way from a real item to the hook: posts, actors and activities built by pub's own constructors (media links,
+        # attachments, icons, banners whose URLs carry credentials, ports, queries, fragments, spaces, $()), opened with
+        # number+Enter, o, p, b: the link the hook RECEIVES must be the link the document gave, verbatim
+        import c07
+        pcases = []
+        for _ in range(80 if tier == "quick" else 3000):
+            keys = []
+            for _ in range(rng.randint(3, 10)):
+                r = rng.random()
+                if r < 0.5:
+                    keys.append(ord(rng.choice("opb")))
+                elif r < 0.8:
+                    keys += [ord(rng.choice("1234")), 13]
+                else:
+                    keys.append(ord(rng.choice("jkcra h")))
+            pcases.append(c07.uipub_case(rng, keys, preload=rng.choice((0, 1, 2))))
+        penv = dict(env)
+        penv["VERIF_CASE_TIMEOUT"] = "60"
+        pb = Batch("c20-items", pcases, config="[media]\nhook = [\"vdump\", \"%url\"]\n", env=penv, timeout=900,
+                   correspondence="the link the hook received for o / p / b / number+Enter on real items == Pub model's link")
+        pb.parallel = False
+        saved = self.oracle_filter
+        self.oracle_filter = {"state_equals_model"}
+        try:
+            runner.run_batches(self, scratch, binary, [pb], report)
+        finally:
+            self.oracle_filter = saved
 
     def nontrivial(self, case, res):
+        if case.op == "uipub":
+            return True
         if case.op == "hookseq":
             return any("%" in h for h in case.meta["hook"][1:]) and len(case.meta["opens"]) >= 2
         return any("%" in h for h in case.meta["hook"][1:])
